@@ -385,7 +385,17 @@ class CallsMixin:
             et = v.ty.args[0]
             x = z3.Const(fresh_name('e'), sort_of(et))
             i = z3.Int(fresh_name('i'))
-            return self.new_cell(st, SetT(et), z3.Lambda([x], z3.Exists([i], z3.And(0 <= i, i < ln, T.Sel(arr, i) == x))))
+            if self.in_spec or st.guards:
+                return self.new_cell(st, SetT(et), z3.Lambda([x], z3.Exists([i], z3.And(0 <= i, i < ln, T.Sel(arr, i) == x))))
+            # set(list): a fresh set constant characterised from both sides (instantiation-friendly): every element
+            # of the list is a member, every member has a witness position
+            S = z3.Const(fresh_name('setof'), sort_of(SetT(et)))
+            w = z3.Function(fresh_name('pos'), sort_of(et), z3.IntSort())
+            st.pc.append(z3.ForAll([i], z3.Implies(z3.And(0 <= i, i < ln), T.Sel(S, T.Sel(arr, i))), patterns=[T.Sel(arr, i)])
+                         if not z3.is_quantifier(arr) else z3.ForAll([i], z3.Implies(z3.And(0 <= i, i < ln), T.Sel(S, T.Sel(arr, i)))))
+            st.pc.append(z3.ForAll([x], z3.Implies(T.Sel(S, x), z3.And(0 <= w(x), w(x) < ln, T.Sel(arr, w(x)) == x)),
+                                   patterns=[T.Sel(S, x)]))
+            return self.new_cell(st, SetT(et), S)
         raise Unsupported(f'set({v.ty!r})')
 
     def isinstance_(self, v, clsnode, st):
@@ -577,6 +587,16 @@ class CallsMixin:
                     self.store(obj, r, st)
                     return self.const(None)
                 return self.new_cell(st, obj.ty, r)
+        if k == 'ODict':
+            lt = ListT(TupleT(*obj.ty.args))
+            aslist = V(lt, self.load(obj, st))
+            m = self.iter_model(aslist, st)
+            if name == 'items':
+                return V(PY, py=m)
+            if name == 'keys':
+                return V(PY, py=IterModel(m.n, lambda i, s: self.tuple_get(m.item(i, s), 0, s)))
+            if name == 'values':
+                return V(PY, py=IterModel(m.n, lambda i, s: self.tuple_get(m.item(i, s), 1, s)))
         if k == 'Dict':
             kt, vt = obj.ty.args
             d = self.load(obj, st)
